@@ -271,19 +271,18 @@ func (dm *DMap) checkPutConditions(e *env) error {
 		}
 	}
 
-	// Only set the key if it already exists.
-	if e.putConfig.HasXX && !e.fragment.storage.Check(e.hkey) {
+	// Only set the key if it already exists. An expired key does not exist
+	// anymore, even if it has not been evicted yet.
+	if e.putConfig.HasXX || e.putConfig.OnlyUpdateTTL {
 		ttl, err := e.fragment.storage.GetTTL(e.hkey)
-		if err == nil {
-			if isKeyExpired(ttl) {
-				return ErrKeyNotFound
-			}
-		}
 		if errors.Is(err, storage.ErrKeyNotFound) {
-			err = ErrKeyNotFound
+			return ErrKeyNotFound
 		}
 		if err != nil {
 			return err
+		}
+		if isKeyExpired(ttl) {
+			return ErrKeyNotFound
 		}
 	}
 	return nil
